@@ -444,6 +444,11 @@ impl TextWriter {
             self.write_indent();
         }
 
+        if self.buffer.ends_with('\r') && item.starts_with('\n') {
+            // same edge case as in `newline`: keep a trailing `\r` out of the line ending
+            self.buffer.push('\r');
+        }
+
         write!(self.buffer, "{}", item).expect("Writing to an in-memory buffer never fails");
     }
 
